@@ -18,6 +18,37 @@ from .loader import AnalysisError
 from .report import Checker, finish
 
 
+_MODELLED_DECORATORS = {"staticmethod", "classmethod", "property", "abstractmethod", "abc.abstractmethod", "dataclass",
+                        "dataclasses.dataclass", "overload", "typing.overload", "final", "typing.final",
+                        # memoisation: the body is read as it stands, the key is judged by rules.effects.memoised_with_incomplete_key
+                        "lru_cache", "functools.lru_cache", "cache", "functools.cache"}
+
+
+def _guard_unmodelled_decorators(ck):
+    """A decorator can replace what a function does (a wrapper, numpy.vectorize, cached_property, total_ordering, a registry).
+    The pinned tree uses staticmethod / property / abstractmethod / dataclass only; those, classmethod, the typing markers and
+    functools' memoisers are read for what they are. Any other decorator on a function or class of src/ or sv/ that the
+    property's rules may read makes the analysis answer ANALYSIS-ERROR (exit 2) instead of judging a body that is not what runs."""
+    p = ck.ctx.p
+    bad = []
+    for f in p.nontest_functions():
+        if f.is_lambda or f.module.name.startswith(("src.diagnostic.alignment_plot", "src.diagnostic.plot")):
+            continue
+        for d in f.decorators:
+            name = d.split("(")[0]
+            if name in _MODELLED_DECORATORS or name.endswith((".setter", ".getter", ".deleter")):
+                continue
+            bad.append(f"{f.module.relpath}:{f.node.lineno} @{d[:60]} on {f.qualname.split(':')[-1]}")
+    for c in p.classes.values():
+        if c.module.is_test:
+            continue
+        for d in c.decorators:
+            if d.split("(")[0] not in _MODELLED_DECORATORS:
+                bad.append(f"{c.module.relpath}: @{d[:60]} on class {c.name}")
+    if bad:
+        raise AnalysisError("decorator(s) the analysis does not model (the decorated body may not be what runs): " + "; ".join(bad[:5]))
+
+
 def main(argv=None) -> int:
     ap = argparse.ArgumentParser()
     ap.add_argument("prop")
@@ -46,6 +77,7 @@ def main(argv=None) -> int:
             mod = importlib.import_module(f"sa.props.{prop.lower()}")
         except ModuleNotFoundError:
             raise AnalysisError(f"no checker for property {prop}")
+        _guard_unmodelled_decorators(ck)
         mod.run(ck)
         if tier == "thorough":
             extra = getattr(mod, "run_thorough", None)
